@@ -243,6 +243,51 @@ def type_change_probe(ctx, nptdms, stats):
     return uniq
 
 
+def long_session_probe(ctx, nptdms, stats):
+    """One writer session of 101-130 segments (a size class the program generator does not reach): two channels whose per-segment
+    counts agree for the first 100+ segments and differ afterwards; read back eagerly and lazily (channel a first, then b)."""
+    from nptdms import TdmsWriter, ChannelObject, TdmsFile
+    rnd = ctx.rnd
+    out = []
+    k = rnd.randint(100, 112)
+    tail = rnd.randint(3, 18)
+    a_parts, b_parts = [], []
+    buf = io.BytesIO()
+    with TdmsWriter(buf) as w:
+        for i in range(k + tail):
+            na = 2
+            nb = 2 if i < k else rnd.choice([1, 3])
+            a = np.array([rnd.randint(-999, 999) for _ in range(na)], dtype=np.int32)
+            b = np.array([rnd.randint(-999, 999) for _ in range(nb)], dtype=np.int16)
+            a_parts.append(a)
+            b_parts.append(b)
+            w.write_segment([ChannelObject("g", "a", a), ChannelObject("g", "b", b)])
+    ea, eb = np.concatenate(a_parts), np.concatenate(b_parts)
+    stats["long_sessions"] = stats.get("long_sessions", 0) + 1
+    rp = dict(kind="long-session", segments=k + tail, first_difference=k, file=buf.getvalue().hex())
+    try:
+        fe = TdmsFile.read(io.BytesIO(buf.getvalue()))
+        if not (np.array_equal(fe["g"]["a"][:], ea) and np.array_equal(fe["g"]["b"][:], eb)):
+            out.append(Violation("write -> read: %d segments written in one session read back (TdmsFile.read) with other values" % (k + tail), rp))
+        with TdmsFile.open(io.BytesIO(buf.getvalue())) as fl:
+            la = fl["g"]["a"][:]
+            chb = fl["g"]["b"]
+            lb = chb[:]
+            n = len(eb)
+            probes = [("[:]", lb, eb), ("[%d:%d]" % (n - 12, n - 2), chb[n - 12:n - 2], eb[n - 12:n - 2]), ("[-1]", np.array([chb[-1]]), eb[-1:]),
+                      ("[%d]" % (2 * k + 1), np.array([chb[2 * k + 1]]), eb[2 * k + 1:2 * k + 2])]
+            if not np.array_equal(la, ea):
+                out.append(Violation("write -> read: channel a of a %d-segment session read lazily differs from what was written" % (k + tail), rp))
+            for label, g, e in probes:
+                if not np.array_equal(np.asarray(g), e):
+                    out.append(Violation("write -> read: channel b of a %d-segment session (counts differ from a's after segment %d), read lazily after a: %s gives %s, written %s" % (
+                        k + tail, k, label, list(np.asarray(g))[:6], list(e)[:6]), rp))
+                    break
+    except Exception as ex:  # noqa
+        out.append(Violation("write -> read: reading a %d-segment session raised %s: %s" % (k + tail, type(ex).__name__, str(ex)[:120]), rp))
+    return out
+
+
 def run(ctx):
     nptdms = ctx.nptdms()
     model = ctx.get_model() if ctx.build_ok else None
@@ -324,6 +369,8 @@ def run(ctx):
     # channel, so the only way to honour "reading returns the concatenation of the arrays written, with the same dtype" is to
     # refuse the second write; an accepted sequence whose file cannot be read back is a violation
     violations += type_change_probe(ctx, nptdms, stats)
+    for _ in range(ctx.n(2, 20)):
+        violations += long_session_probe(ctx, nptdms, stats)
     # _infer_dtype: model vs real, and soundness on the real code
     from nptdms import writer as W
     for _ in range(ctx.n(600, 20000)):
